@@ -548,6 +548,28 @@ func init() {
 		for i, b := range bad {
 			run(b, fmt.Sprintf("must-reject #%d", i), nil, true)
 		}
+		// a tag written as a string of digits is that decimal number (leading zeros included), in every notation; any other
+		// spelling of a number (prefix, sign, separators, blanks, exponent) is no tag
+		for k := 0; k < 6; k++ {
+			t := g.reqByType[rscp.None][g.pick(len(g.reqByType[rscp.None]))]
+			want := []rscp.Message{{Tag: t, DataType: rscp.None}}
+			for _, pad := range []string{"", "0", "000"} {
+				ds := pad + strconv.FormatUint(uint64(t), 10)
+				run(jarr(jstr(ds)), "digit-string tag bare", want, false)
+				run(jarr(jarr(jstr(ds))), "digit-string tag tuple", want, false)
+				run(jarr(jobj().set("Tag", jstr(ds))), "digit-string tag object", want, false)
+			}
+			for _, alt := range []string{"0x" + strconv.FormatUint(uint64(t), 16), "0X" + strconv.FormatUint(uint64(t), 16), "0b" + strconv.FormatUint(uint64(t), 2),
+				"0o" + strconv.FormatUint(uint64(t), 8), "+" + strconv.FormatUint(uint64(t), 10), strconv.FormatUint(uint64(t), 10) + " ", " " + strconv.FormatUint(uint64(t), 10),
+				strconv.FormatUint(uint64(t)/1000, 10) + "_" + fmt.Sprintf("%03d", uint64(t)%1000), strconv.FormatUint(uint64(t), 10) + "e0", strconv.FormatUint(uint64(t), 10) + ".0"} {
+				run(jarr(jstr(alt)), "number-like string that is no tag", nil, true)
+				run(jarr(jarr(jstr(alt))), "number-like string that is no tag, tuple", nil, true)
+				run(jarr(jobj().set("Tag", jstr(alt))), "number-like string that is no tag, object", nil, true)
+			}
+		}
+		for _, alt := range []string{"010", "08", "09", "0x10", "0b11", "0o17", "1_000", "00"} {
+			run(jarr(jstr(alt)), "short number-like tag string", nil, false) // whatever it is, model and code must agree
+		}
 		// text-level malformations: no JSON tree to give the model, judged by the Go-side oracle only
 		for _, txt := range []string{"", " ", "[", "[[]", `["INFO_REQ_UTC_TIME"`, `["INFO_REQ_UTC_TIME",]`, `{"Tag":}`, `[x]`, `["INFO_REQ_UTC_TIME"] trailing`,
 			`[01]`, `["BAT_REQ_DATA",[["BAT_INDEX",0]`, "\xff\xfe", `[1e]`, `nul`, `[{"Tag":"INFO_REQ_UTC_TIME",}]`} {
